@@ -208,6 +208,9 @@ def run(tier):
                      [D.describe(r) for r in raws])
         rep.evaluations += len(raws)
     rep.extra["drift_total"] = drift
+    # the value objects the driver hands out (fdata / fieldlist): Field.tla, every operation sequence replayed on the real objects
+    from . import field_model
+    field_model.run(rep, tier, wd)
     from . import driver_trace
     driver_trace.report(rep, traces, wd, lambda tid: "cls=%s script=%s" % (meta[tid][1], json.dumps(meta[tid][0]["calls"])[:300]))
     # judge
